@@ -18,9 +18,11 @@ SPELLING = {
     'long_double_type': 'long double', 'ellipsis_type': '...', 'typename_type': 'typename', 'class_type': 'class',
     'union_type': 'union', 'enum_type': 'enum', 'namespace_type': 'namespace',
 }
-SYMBOLS = {   # accessor -> (spelling, kind of its type or None)
-    'false_value': ('false', 'Bool'), 'true_value': ('true', 'Bool'), 'nullptr_value': ('nullptr', None),
-    'default_value': ('default', None), 'delete_value': ('delete', 'Void'),
+SYMBOLS = {   # accessor -> (spelling, row of the built-in table that is its type; nullptr owns its decltype(nullptr))
+    # confirmed by reading src/impl.cxx at the pinned commit: truth values are bool, `default` is typed by the `auto`
+    # placeholder row, `delete` is void ("nothing ever comes out"), nullptr's type is the Decltype member it owns
+    'false_value': ('false', 'Bool'), 'true_value': ('true', 'Bool'), 'nullptr_value': ('nullptr', 'own Decltype'),
+    'default_value': ('default', 'Auto'), 'delete_value': ('delete', 'Void'),
 }
 LINKAGES = {'c_linkage': 'C', 'cxx_linkage': 'C++'}
 
@@ -130,7 +132,16 @@ def run(ck, F):
                 ob = r[0][1]
                 a = contracts.observe(S, F, r[0][0], ob, {ob[1]: 'R'}, accessor_filter=lambda n: n in ('name', 'operand', 'type'))
                 spelled = a.get('operand') == f'ipr::impl::(anon)known_word("{word}")'
-                typed = kind is None or a.get('type') == f'{bt["q"]}[ipr::impl::(anon)::Fundamental::{kind}]'
+                if kind == 'own Decltype':
+                    tv = S.run(F.final_overrider_by_name(r[0][0].heap[ob[1]].cls, 'type')[0], this=ob, args=[], state=r[0][0].fork())
+                    tt = tv[0][2] if len(tv) == 1 and tv[0][1] == 'return' else None
+                    if tt is not None and tt[0] == 'addr':
+                        tt = tt[1]
+                    typed = (tt is not None and tt[0] == 'fld' and tt[1] == ob) or \
+                        (tt is not None and tt[0] == 'obj' and tt in r[0][0].heap[ob[1]].fields.values()
+                         and 'Decltype' in r[0][0].heap[tt[1]].cls)
+                else:
+                    typed = a.get('type') == f'{bt["q"]}[ipr::impl::(anon)::Fundamental::{kind}]'
                 good = spelled and typed
                 what = f'operand={a.get("operand")}, type={a.get("type")}'
         ck.check(R3, acc, good, f'Lexicon::{acc}(): {what or "does not return a constexpr constant"}', loc=f['loc'], fn=f['id'])
@@ -197,6 +208,21 @@ def run(ck, F):
             raise AnalysisBroken(f'{fid}: {e}')
         first_nodes = [i for i, p in enumerate(paths) if 'accessors' in p]
         hits = [i for i, p in enumerate(paths) if pred(p)]
+        if not hits and name == 'get_as_type(Identifier)':
+            # the same search written as an index loop: every row of the table must be tried, by identity of its name
+            import re
+            rows_hit = {}
+            for i, p in enumerate(paths):
+                m = re.fullmatch(re.escape(bt['q']) + r'\[(\d+)\]', p.get('result', ''))
+                if m and '== &P0' in p['when']:
+                    rows_hit[int(m.group(1))] = i
+            if set(rows_hit) == set(range(len(rows))):
+                hits = [max(rows_hit.values())]
+            elif rows_hit:
+                ck.fail(R5, name, f'{fid}: the search for a built-in spelling tries rows {sorted(rows_hit)} of the table only; '
+                        f'row(s) {sorted(set(range(len(rows))) - set(rows_hit))} are never matched, so their spelling yields a look-alike',
+                        loc=f['loc'], fn=fid)
+                continue
         ck.check(R5, name, bool(hits) and (not first_nodes or min(hits) < min(first_nodes)),
                  f'{fid}: no path returns the constant before a dynamic node is produced: '
                  f'{[(p["when"][:50], p.get("result") or p.get("class")) for p in paths]}', loc=f['loc'], fn=fid)
